@@ -108,6 +108,24 @@ CLAIMED = {
              "absent/empty/partial/full) written and read back by the library reader and by the independent Lean reader, member for member.",
         note="Partial proof: generic schema round-trip theorem pending; tie is differential. Trusted: harness records.h renders every member.",
         technique="Lean 4 proof of member-kind round trips + differential write/read with an independent Lean reader", design="§4 C09"),
+    "C11": dict(
+        text="Lean 4 theorems over a model of BlockTable/KeyRef with explicit storage (any element type, any hash with HashOk): add_spec "
+             "(returns the index of an equal entry; existing value -> same index, table unchanged; new value -> appended), add_idempotent, "
+             "no_duplicates, distinct_distinct, stable (indices keep denoting the same value), clear_empty, never a dangling access on "
+             "canonical tables. Tied by interleaved add/get/size/clear on the nine tables of real blocks (small pools, large domains, "
+             "one-member toggles) vs the Lean model vs a dictionary reference; closure/isolation across flushes via the independent reader.",
+        note="Trusted: equality/hash of the nine key types read the members the model says (validated by one-member-toggle pairs); CRC32 "
+             "intrinsics treated as an arbitrary hash; std::unordered_map/std::deque semantics.",
+        technique="Lean 4 proof (invariant 'canonical table' preserved by add) + differential correspondence", design="§4 C11"),
+    "C19": dict(
+        text="Lean 4 over the same storage-explicit table model: copy_canon, copy_like_fresh (the repaired copy IS the table built afresh from "
+             "the same items), own_cell_only / copy_independent (a table with own references consults only its own storage: mutating, clearing "
+             "or destroying the source cannot change the copy), add_frames_others (the copy never writes the source), and the refutation "
+             "shallow_copy_dangles of the implicitly generated copy. Tied by histories of copy/move/assign/destroy/mutate over real "
+             "CdnsBlockRead objects under ASan vs model vs value-semantics reference.",
+        note="Trusted: a block = nine tables + plain vectors/maps copied by value (the vectors are not modelled); AddressSanitizer exposes "
+             "dangling references; std::deque reference stability on move.",
+        technique="Lean 4 proof (frame/ownership invariant over an explicit heap) + differential correspondence under ASan", design="§4 C19"),
 }
 REASON_PENDING = "check not built yet in this revision (work in progress; see DESIGN.md §8 build order)"
 
